@@ -32,7 +32,7 @@ var (
 	bxsX, bxsY [][2]float64
 	skew       = false // scenario: false = dyadic bound [0,4]^2, true = the non-dyadic bound [0.2,2.2]x[0.1,0.7]
 	ks         = []int{0, 1, 2, 3, 8}
-	maxds      = []float64{-1, 0, 1, 2.5, 100} // -1 = not given
+	maxds      = []float64{-1, 0, 0.6, 1, 2.5, 100} // -1 = not given
 	bxs        = [][2]float64{}
 )
 
